@@ -397,6 +397,18 @@ class Scenario:
             parts = name.split(":")
             origin = {"a": "origin-a.example.org", "b": "origin-b.example.org", "p": host}[parts[1]]      # p: the peer itself is the origin
             d = env.acr(host=origin, hbh=hbh, e2e=0x7000 + int(parts[3]), flags=R | P | (T if parts[2] == "1" else 0))
+        elif name.startswith("rx:") or name.startswith("rx1:"):
+            # rx:<origin a|b|p>:<T 0|1>:<k>   hop-by-hop AND end-to-end id from one pool: requests of different origin hosts arriving on
+            # different connections may carry the same identifier pair (hop-by-hop ids are unique per connection only, end-to-end ids
+            # per origin host only).  Not enabled while a request with this hop-by-hop id is unanswered on this connection.
+            parts = name.split(":")
+            origin = {"a": "origin-a.example.org", "b": "origin-b.example.org", "p": host}[parts[1]]
+            hb = 0x5000 + int(parts[3])
+            answered = {(f.h.hbh, f.h.e2e) for f in s.out if not f.h.is_request}
+            if any(f.h.hbh == hb and ((f.h.hbh, f.h.e2e) not in answered or name.startswith("rx1:")) for f in s.inreq):
+                s.nreq -= 1         # ("rx1:": a pair is used once per connection, so that requests of one connection stay distinguishable)
+                return None
+            d = env.acr(host=origin, hbh=hb, e2e=0x7000 + int(parts[3]), flags=R | P | (T if parts[2] == "1" else 0))
         elif name.startswith("rh0:"):
             # hop-by-hop id from the pool, end-to-end id 0 (a legal value)
             hb = 0x4000 + int(name[4:])
